@@ -4,7 +4,7 @@ package main
 //
 // Correspondence (exact, against coq/Model/DispatchOT.v ops): bitAt, transposeBits, fieldElement.accumulate/eq,
 // makeGadget, encode; the model's relation checkers (ot.corre_check, ot.ext_x/ext_t/ext_check, ot.additive_check,
-// ot.masked_pad, ot.mult_recv_check, ot.mult_check) are evaluated on the values of REAL runs of the OT stack.
+// ot.additive_recv_class, ot.mult_recv_check, ot.mult_check) are evaluated on the values of REAL runs of the OT stack.
 // Search: every relation is also judged by a plain Go oracle (math/big, XOR), and every single-field alteration of
 // the random-OT / setup / Multiply messages must end in an error on the checking side or in a still-correct product;
 // a panic or a wrong accepted product is a property violation (c13_alter.go).
